@@ -833,7 +833,15 @@ VSattach(HFILEID     f,    /* IN: file handle */
         if (acc_mode == 'r')
             HGOTO_ERROR(DFE_BADACC, FAIL);
 
-        /* otherwise 'w' */
+        /* otherwise 'w': a new vdata needs a file that can be written */
+        {
+            intn  file_acc = 0, attached = 0;
+            char *fname    = NULL;
+
+            if (Hfidinquire(f, &fname, &file_acc, &attached) != FAIL && !(file_acc & DFACC_WRITE))
+                HGOTO_ERROR(DFE_BADACC, FAIL);
+        }
+
         /* allocate space for vs,  & zero it out  */
         if ((vs = VSIget_vdata_node()) == NULL)
             HGOTO_ERROR(DFE_NOSPACE, FAIL);
